@@ -188,11 +188,103 @@ func originOfIndex(d *declInfo, m types.Object) indexOrigin {
 				fname := objName(f)
 				if k, ok := indexerKinds[fname[strings.LastIndex(fname, ".")+1:]]; ok {
 					out = indexOrigin{kind: k, operand: operand}
+				} else if len(ce.Args) == 1 && f.Pkg() != nil && strings.HasPrefix(f.Pkg().Path(), modPath+"/") {
+					// a general set builder of the module applied to an operand's root list:
+					// indexIDs(nl.RootElements) is the root index of nl
+					if sig, _ := f.Type().(*types.Signature); sig != nil && sig.Results().Len() == 1 && mapShape(sig.Results().At(0).Type()) == "set" {
+						if sel, isSel := ce.Args[0].(*ast.SelectorExpr); isSel && canonField(sel.Sel.Name) == "RootElements" {
+							out = indexOrigin{kind: "roots", operand: baseObj(d, sel.X)}
+						} else if gs, isCall := ce.Args[0].(*ast.CallExpr); isCall {
+							if gsel, isSel := gs.Fun.(*ast.SelectorExpr); isSel && gsel.Sel.Name == "GetRootElements" {
+								out = indexOrigin{kind: "roots", operand: baseObj(d, gsel.X)}
+							}
+						}
+					}
 				}
 			}
 		}
 		return true
 	})
+	// an index that is one of several results of a module helper: idx, edges, e, err := nl.lookup(…)
+	if out.kind == "" && theProgram != nil {
+		ast.Inspect(d.fd.Body, func(n ast.Node) bool {
+			as, ok := n.(*ast.AssignStmt)
+			if !ok || len(as.Rhs) != 1 || len(as.Lhs) < 2 {
+				return true
+			}
+			ce, isCall := as.Rhs[0].(*ast.CallExpr)
+			if !isCall {
+				return true
+			}
+			pos := -1
+			for i, l := range as.Lhs {
+				if objOf(d.pkg, l) == m {
+					pos = i
+				}
+			}
+			if pos < 0 {
+				return true
+			}
+			g, _ := typeutil.Callee(d.pkg.TypesInfo, ce).(*types.Func)
+			if g == nil || g.Pkg() == nil || !strings.HasPrefix(g.Pkg().Path(), modPath+"/") {
+				return true
+			}
+			gfd, gpk := theProgram.FuncDecl(objName(g))
+			if gfd == nil || gfd.Body == nil {
+				return true
+			}
+			// the expression the helper returns at that position
+			var resObj types.Object
+			if gfd.Type.Results != nil {
+				k := 0
+				for _, fl := range gfd.Type.Results.List {
+					for _, nm := range fl.Names {
+						if k == pos {
+							resObj = gpk.TypesInfo.Defs[nm]
+						}
+						k++
+					}
+				}
+			}
+			kindOf := func(e ast.Expr) string {
+				if c2, ok := e.(*ast.CallExpr); ok {
+					if f2, _ := typeutil.Callee(gpk.TypesInfo, c2).(*types.Func); f2 != nil {
+						fn := objName(f2)
+						return indexerKinds[fn[strings.LastIndex(fn, ".")+1:]]
+					}
+				}
+				return ""
+			}
+			kind := ""
+			ast.Inspect(gfd.Body, func(x ast.Node) bool {
+				switch s2 := x.(type) {
+				case *ast.AssignStmt:
+					for i, l := range s2.Lhs {
+						if resObj != nil && objOfInfo(gpk, l) == resObj && i < len(s2.Rhs) && len(s2.Lhs) == len(s2.Rhs) {
+							if k := kindOf(s2.Rhs[i]); k != "" {
+								kind = k
+							}
+						}
+					}
+				case *ast.ReturnStmt:
+					if pos < len(s2.Results) {
+						if k := kindOf(s2.Results[pos]); k != "" {
+							kind = k
+						}
+					}
+				}
+				return true
+			})
+			if kind != "" {
+				var operand types.Object
+				if sel, ok := ce.Fun.(*ast.SelectorExpr); ok {
+					operand = baseObj(d, sel.X)
+				}
+				out = indexOrigin{kind: kind, operand: operand}
+			}
+			return true
+		})
+	}
 	if out.kind != "" {
 		return out
 	}
